@@ -76,6 +76,12 @@ def run(e: Engine, rep: Report):
     rep.errors += sub.errors
     rep.evaluations += sub.evaluations
     rep.functions |= sub.functions
+    rep.rule('W6', 'send_reply cuts the text into wire lines at LF '
+             '(optional CR) only: no splitter with a larger boundary set')
+    w6(e, rep)
+    rep.rule('W7', 'MULTILINE patterns of the reply modules have no repeat '
+             'that can consume LF')
+    w7(e, rep)
     rep.floor('W2', 4, 'framing agreement obligations')
 
 
@@ -207,7 +213,8 @@ def w2(e: Engine, rep: Report):
         if isinstance(n, ast.Call) and isinstance(n.func, ast.Attribute) \
                 and n.func.attr == 'join' and n.args and \
                 isinstance(n.args[0], (ast.Tuple, ast.List)) and \
-                len(n.args[0].elts) == 4:
+                len(n.args[0].elts) >= 4:
+            # (code, SEP, <text parts...>, TERM)
             writes.append(n)
     if len(writes) < 2 or sep_set is None or len(sep_set) != 1:
         rep.error('anchor vanished: composed reply lines in send_reply '
@@ -215,7 +222,8 @@ def w2(e: Engine, rep: Report):
         return
     finals = set()
     for w in writes:
-        code_e, sep_e, line_e, term_e = w.args[0].elts
+        code_e, sep_e = w.args[0].elts[:2]
+        term_e = w.args[0].elts[-1]
         in_loop = any(isinstance(p, ast.For) and any(
             x is w for x in ast.walk(p)) for p in walk_own(ctx.func.node))
         rep.evaluations += 1
@@ -501,3 +509,126 @@ def w4(e: Engine, rep: Report):
               loc='%s:%d' % (ctx.func.module.relpath, w.lineno),
               reason='buffered_recv on every continuing trip',
               witness=dataflow.render_path(pth, 14) if pth else None)
+
+
+# ---------------------------------------------------------------------- W6
+# where str.splitlines / bytes.splitlines begin a new line (Python library
+# reference); the wire format and the reader know CRLF and LF only
+SPLITLINES_EXTRA = ('\\r alone, \\v, \\f, \\x1c-\\x1e, \\x85, '
+                    '\\u2028, \\u2029')
+
+
+def w6(e: Engine, rep: Report):
+    """The writer cuts the text into wire lines where the documented
+    normalisation says: at LF, optionally preceded by CR.  A splitter with a
+    larger set of boundaries (str.splitlines) writes extra continuation
+    lines for texts that contain those characters; the reader joins wire
+    lines with CRLF, so the text does not come back."""
+    from .. import regexast as rx
+    ctx = e.method_ctx(IOC, 'send_reply')
+    where = ctx.func.qname
+    fn = ctx.func.node
+    n = 0
+    for x in walk_own(fn):
+        if not isinstance(x, ast.Call) or \
+                not isinstance(x.func, ast.Attribute):
+            continue
+        if x.func.attr == 'splitlines':
+            n += 1
+            rep.evaluations += 1
+            rep.bad('W6', where, 'text cut into lines by splitlines()',
+                    'send_reply splits the text with splitlines(), which '
+                    'also starts a new line at %s: a text with one of '
+                    'these inside a line is written as several wire '
+                    'lines and parsed back with CRLF in their place'
+                    % SPLITLINES_EXTRA, loc=ctx.func.loc(x))
+        elif x.func.attr in ('finditer', 'split', 'findall') and \
+                isinstance(x.func.value, ast.Name):
+            pat = rx.module_pattern(e, 'slimta.smtp.io', x.func.value.id)
+            if pat is None:
+                continue
+            n += 1
+            rep.evaluations += 1
+            from .c05 import line_terminator
+            p0 = pat[0] if isinstance(pat[0], bytes) else \
+                pat[0].encode('latin-1')
+            lt = line_terminator(p0, pat[1])
+            ok = lt is not None and lt[0] == b'\n' and not lt[1]
+            rep.check(ok, 'W6', where,
+                      'text cut into lines by %s' % x.func.value.id,
+                      'the pattern send_reply splits the text with does '
+                      'not end a line at every LF (optionally after CR) '
+                      'and only there', loc=ctx.func.loc(x),
+                      reason='line ends at LF, optional CR before it')
+        elif x.func.attr == 'split' and x.args and \
+                isinstance(x.args[0], ast.Constant) and \
+                x.args[0].value in (b'\n', b'\r\n', '\n', '\r\n'):
+            n += 1
+            rep.evaluations += 1
+            rep.ok('W6', where, 'text cut into lines at %r'
+                   % (x.args[0].value,), reason='LF / CRLF',
+                   loc=ctx.func.loc(x))
+    if n < 1:
+        rep.error('anchor vanished: how send_reply cuts the text into '
+                  'lines')
+
+
+# ---------------------------------------------------------------------- W7
+def w7(e: Engine, rep: Report):
+    """Patterns of the reply modules that work line by line (re.MULTILINE,
+    anchored with ^) must stay inside the line: a repeat that can consume a
+    line terminator (`\\s+`) eats the line break and what follows it - empty
+    inner lines and indentation of a multi-line text are lost."""
+    from .. import regexast as rx
+    import re as _re
+    n = 0
+    for mod in ('slimta.smtp.reply', 'slimta.smtp.io'):
+        m = e.p.modules.get(mod)
+        if m is None:
+            continue
+        for st in m.tree.body:
+            if not (isinstance(st, ast.Assign) and
+                    isinstance(st.value, ast.Call) and
+                    ast.unparse(st.value.func) == 're.compile' and
+                    st.value.args and
+                    isinstance(st.value.args[0], ast.Constant)):
+                continue
+            name = st.targets[0].id if isinstance(st.targets[0], ast.Name) \
+                else '?'
+            got = rx.module_pattern(e, mod, name)
+            if got is None or not (got[1] & _re.MULTILINE):
+                continue
+            n += 1
+            rep.evaluations += 1
+            sc = rx._consts()
+            bad = None
+
+            def scan(items):
+                nonlocal bad
+                for op, av in items:
+                    if op in (sc.MAX_REPEAT, sc.MIN_REPEAT):
+                        inner = list(av[2])
+                        for cs in rx.all_charsets(inner, got[1]):
+                            if cs is not None and 10 in cs and av[1] > 1:
+                                bad = True
+                        scan(inner)
+                    elif op == sc.SUBPATTERN:
+                        scan(list(av[3]))
+                    elif op == sc.BRANCH:
+                        for alt in av[1]:
+                            scan(list(alt))
+            scan(list(rx.parse(got[0], got[1])))
+            rep.check(not bad, 'W7', mod + '.' + name,
+                      'line-anchored pattern stays inside the line',
+                      'the MULTILINE pattern %r has a repeat that can '
+                      'consume LF: applied per line it swallows the line '
+                      'break and the following line\'s leading text - empty '
+                      'inner lines and indentation of a reply text are '
+                      'lost' % (got[0],),
+                      loc='%s:%d' % (m.relpath, st.lineno),
+                      reason='no repeat over a class containing LF')
+    rep.evaluations += 1
+    if n == 0:
+        rep.ok('W7', 'slimta.smtp.reply', 'no line-anchored (MULTILINE) '
+               'pattern in the reply modules', reason='nothing to cross a '
+               'line', nontrivial=False)
